@@ -118,3 +118,40 @@ def normal_test(test: ast.AST, outcome: bool) -> tuple[ast.AST, bool]:
                 outcome = not outcome
                 break
     return test, outcome
+
+
+def emptiness_fact(test: ast.AST, outcome: bool, is_subject) -> str | None:
+    """What a branch condition with this outcome says about the size of a container: "empty",
+    "nonempty" or None (nothing).  ``is_subject(expr)`` recognises the container.  Understands the
+    truth value (``if xs`` / ``if not xs`` / ``if len(xs)``), ``len(xs) == 0`` / ``!= 0`` / ``< 1`` / ``<= 0`` /
+    ``> 0`` / ``>= 1`` (also with the literal on the left) and comparison with an empty display
+    (``xs == []``, ``{}``, ``()``, ``set()``, ``dict()``, ``list()``, ``tuple()``)."""
+    test, outcome = normal_test(test, outcome)
+
+    def is_len(e):
+        return isinstance(e, ast.Call) and isinstance(e.func, ast.Name) and e.func.id == "len" and len(e.args) == 1 and not e.keywords and is_subject(e.args[0])
+
+    def is_empty_display(e):
+        if isinstance(e, (ast.List, ast.Tuple, ast.Set)) and not e.elts:
+            return True
+        if isinstance(e, ast.Dict) and not e.keys:
+            return True
+        return isinstance(e, ast.Call) and isinstance(e.func, ast.Name) and e.func.id in {"set", "dict", "list", "tuple", "frozenset"} and not e.args and not e.keywords
+
+    says = lambda empty_when_true: ("empty" if outcome else "nonempty") if empty_when_true else ("nonempty" if outcome else "empty")  # noqa: E731
+    if is_subject(test) or is_len(test):
+        return says(False)
+    if isinstance(test, ast.Compare) and len(test.ops) == 1:
+        a, op, b = test.left, test.ops[0], test.comparators[0]
+        if isinstance(op, ast.Eq) and ((is_subject(a) and is_empty_display(b)) or (is_subject(b) and is_empty_display(a))):
+            return says(True)
+        mirror = {ast.Lt: ast.Gt, ast.Gt: ast.Lt, ast.LtE: ast.GtE, ast.GtE: ast.LtE, ast.Eq: ast.Eq}
+        if is_len(b) and isinstance(a, ast.Constant) and type(op) in mirror:
+            a, op, b = b, mirror[type(op)](), a
+        if is_len(a) and isinstance(b, ast.Constant) and isinstance(b.value, int) and not isinstance(b.value, bool):
+            k = b.value
+            if (isinstance(op, ast.Eq) and k == 0) or (isinstance(op, ast.Lt) and k == 1) or (isinstance(op, ast.LtE) and k == 0):
+                return says(True)
+            if (isinstance(op, ast.Gt) and k == 0) or (isinstance(op, ast.GtE) and k == 1):
+                return says(False)
+    return None
